@@ -74,10 +74,23 @@ pub fn build(t: &Value) -> BoxSource {
       if let Some(r) = m["sourceRoot"].as_str() {
         sm.set_source_root(Some(r.to_string()));
       }
-      SourceMapSource::new(WithoutOriginalOptions {
+      let inner = if t.get("inner_map").map(|x| !x.is_null()).unwrap_or(false) {
+        let im = &t["inner_map"];
+        let mut ism = SourceMap::new(im["mappings"].as_str().unwrap().to_string(), strs(&im["sources"]), strs(&im["sourcesContent"]), strs(&im["names"]));
+        if let Some(r) = im["sourceRoot"].as_str() {
+          ism.set_source_root(Some(r.to_string()));
+        }
+        Some(ism)
+      } else {
+        None
+      };
+      SourceMapSource::new(SourceMapSourceOptions {
         value: t["text"].as_str().unwrap().to_string(),
         name: t["name"].as_str().unwrap_or("x.js").to_string(),
         source_map: sm,
+        original_source: t["original_source"].as_str().map(|s| s.to_string()),
+        inner_source_map: inner,
+        remove_original_source: t["remove_original_source"].as_bool().unwrap_or(false),
       })
       .boxed()
     }
@@ -120,6 +133,7 @@ pub fn map_json(m: Option<SourceMap>) -> Value {
   match m {
     None => Value::Null,
     Some(m) => json!({
+      "sourceRoot": m.source_root(),
       "mappings": m.mappings(),
       "sources": m.sources(),
       "sourcesContent": m.sources_content(),
